@@ -210,6 +210,17 @@ Definition validate_service (f : frugal) (incs : list (bytes * ftree)) (s : serv
                 of_bool (negb (has_dup_z (map f_id (m_args m)))))))
           (sv_methods s)).
 
+(** validateScopes / validateScopeTypes: a prefix names each variable once (the variables become the
+    parameters of the generated publish / subscribe methods; C11-K12, repaired), then the
+    operation types.  [validate_scopes_pinned] is the code before the repair. *)
+Definition validate_scope (f : frugal) (incs : list (bytes * ftree)) (s : scope) : vres :=
+  vand (of_bool (negb (has_dup (p_vars (sc_prefix s))))) (fun _ =>
+        vall (fun o => of_type (valid_type f incs (o_type o))) (sc_ops s)).
+Definition validate_scopes (f : frugal) (incs : list (bytes * ftree)) : vres :=
+  vall (validate_scope f incs) (fr_scopes f).
+Definition validate_scopes_pinned (f : frugal) (incs : list (bytes * ftree)) : vres :=
+  vall (fun s => vall (fun o => of_type (valid_type f incs (o_type o))) (sc_ops s)) (fr_scopes f).
+
 Definition validate (f : frugal) (incs : list (bytes * ftree)) : vres :=
   vand (of_bool (negb (has_dup (map (fun s => lower_first (sv_name s)) (fr_services f))))) (fun _ =>
   vand (vall (fun s => of_bool (negb (has_dup (map (fun m => lower_first (m_name m)) (sv_methods s))))) (fr_services f)) (fun _ =>
@@ -224,7 +235,7 @@ Definition validate (f : frugal) (incs : list (bytes * ftree)) : vres :=
   vand (vall (validate_struct f incs) (fr_unions f)) (fun _ =>
   vand (vall (validate_struct f incs) (fr_exceptions f)) (fun _ =>
   vand (vall (validate_service f incs) (fr_services f)) (fun _ =>
-        vall (fun s => vall (fun o => of_type (valid_type f incs (o_type o))) (sc_ops s)) (fr_scopes f)))))))))))))).
+        validate_scopes f incs))))))))))))).
 
 (** ** sort.Sort(scopesByName): names are pairwise distinct after validate, so any sort agrees *)
 Fixpoint bytes_ltb (a b : bytes) : bool :=
